@@ -108,3 +108,63 @@ func H_C09_encoders() {
 	}
 	vReach("end")
 }
+
+//verif:witness H_C09_long end
+//verif:bound C09 all long strings: length 8..18 of the constant byte 'a' with ONE arbitrary byte at an arbitrary position, or TWO adjacent arbitrary bytes at an arbitrary position (every alignment of a 1- or 2-byte special sequence against any word/window size up to 16)
+// H_C09_long: no fast path keyed on position or window alignment may change the result.
+func H_C09_long() {
+	vOpt("loop", 200)
+	n := 8 + vChoose("len", 11)
+	pos := vChoose("pos", n)
+	b := make([]byte, n)
+	for i := range b {
+		b[i] = 'a'
+	}
+	b[pos] = vByte("x")
+	if vChoose("two", 2) == 1 && pos+1 < n {
+		b[pos+1] = vByte("y")
+	}
+	in := string(b)
+	var buf bytes.Buffer
+	WriteLogString(&buf, in)
+	out := buf.Bytes()
+	for i := 0; i < len(out); i++ {
+		vAssert(out[i] >= 0x20, "no-raw-control-byte")
+	}
+	got, ok := vDecodeJSONStringBody(out)
+	vAssert(ok, "valid-json-string-body")
+	if ok {
+		vAssert(vEqualCPs(got, vSanitize([]byte(in))), "decodes-to-sanitised-input")
+	}
+	vReach("end")
+}
+
+//verif:witness H_C09_concurrent end
+//verif:bound C09 all two goroutines escaping one arbitrary byte each into their own buffers at the same time; every access to a package-level variable is a scheduling point (1 pre-emptive switch): the escaper must not keep shared scratch state
+//verif:engine-only H_C09_concurrent
+
+// H_C09_concurrent: escaping is a pure function also under concurrency.
+func H_C09_concurrent() {
+	vOpt("globalrace", 1)
+	vOpt("schedall", 1)
+	vOpt("preempt", 1)
+	ins := [2]string{vString("a", 1), vString("b", 1)}
+	var bufs [2]bytes.Buffer
+	done := make(chan int, 2)
+	for g := 0; g < 2; g++ {
+		go func(g int) {
+			WriteLogString(&bufs[g], ins[g])
+			done <- 1
+		}(g)
+	}
+	<-done
+	<-done
+	for g := 0; g < 2; g++ {
+		got, ok := vDecodeJSONStringBody(bufs[g].Bytes())
+		vAssert(ok, "valid-json-string-body")
+		if ok {
+			vAssert(vEqualCPs(got, vSanitize([]byte(ins[g]))), "decodes-to-sanitised-input-under-concurrency")
+		}
+	}
+	vReach("end")
+}
